@@ -12,4 +12,5 @@ let () =
   | "vars" -> Varsmodel.run_vars ic
   | "clean" -> Cleanmodel.run_clean ic
   | "effects" -> Effectsmodel.run_effects ic
+  | "cst" -> Cstmodel.run_cst ic
   | m -> prerr_endline ("unknown mode " ^ m); exit 2
